@@ -790,6 +790,80 @@ class Gram:
         return s.encode()
 
 
+# ---------------------------------------------------------------- stream (a'): the formal mangler of the theorems
+# mirrors ymangle / simple_name of coq/theories/C13/Roundtrip.v (theorem C13_roundtrip_typed_partial):
+# the generator knows the qualified name, so a wrong or unchanged result is a failing input
+B36 = "0123456789ABCDEFGHIJKLMNOPQRSTUVWXYZ"
+OPNAMES = {"nw": " new", "na": " new[]", "dl": " delete", "da": " delete[]", "ps": "+", "ng": "-", "ad": "&", "de": "*", "co": "~",
+           "pl": "+", "mi": "-", "ml": "*", "dv": "/", "rm": "%", "an": "&", "or": "|", "eo": "^", "aS": "=", "pL": "+=", "mI": "-=",
+           "mL": "*=", "dV": "/=", "rM": "%=", "aN": "&=", "oR": "|=", "eO": "^=", "ls": "<<", "rs": ">>", "lS": "<<=", "rS": ">>=",
+           "eq": "==", "ne": "!=", "lt": "<", "gt": ">", "le": "<=", "ge": ">=", "nt": "!", "aa": "&&", "oo": "||", "pp": "++",
+           "mm": "--", "cm": ",", "pm": "->*", "pt": "->", "cl": "()", "ix": "[]", "qu": "?"}
+
+
+def formal_name(rng):
+    """returns (mangled bytes, expected simplified name bytes)"""
+    def ident():
+        n = rng.choice([1, 2, 3, 5, 8, 9, 10, 11, 16, 17, 18, 30])
+        while True:
+            s = rng.choice("abcxyzABCXYZ_") + "".join(rng.choice("abcdefghijklmnopqrstuvwxyzABCXYZ_0123456789") for _ in range(n - 1))
+            if not re.fullmatch(r"h[0-9a-fA-F]{16}", s):
+                return s
+
+    def src(i):
+        return "%d%s" % (len(i), i)
+
+    def seq():
+        k = rng.random()
+        if k < 0.15:
+            return ""
+        if k < 0.55:
+            return rng.choice(B36)
+        if k < 0.8:
+            return rng.choice("GHIJKLMNOPQRSTUVWXYZ")           # the 18th .. 37th candidate
+        return rng.choice(B36[1:]) + "".join(rng.choice(B36) for _ in range(rng.randrange(1, 3)))
+
+    def nested_items():
+        out = ""
+        if rng.random() < 0.5:
+            out += "S" + seq() + "_"
+        for _ in range(rng.randrange(0 if out else 1, 4)):
+            out += src(ident()) if rng.random() < 0.85 else "S" + seq() + "_"
+        return out
+
+    def ty():
+        q = "".join(rng.choice("rVKPROCG") for _ in range(rng.choice([0, 0, 0, 1, 1, 2, 3])))
+        k = rng.random()
+        if k < 0.35:
+            return q + rng.choice(BUILTIN)
+        if k < 0.65:
+            return q + "S" + seq() + "_"
+        if k < 0.8:
+            return q + src(ident())
+        return q + "N" + nested_items() + "E"
+    quals = rng.choice(["", "", "", "K", "V", "R", "O", "KR", "KO", "VK", "VKO"])
+    scopes = [ident() for _ in range(rng.randrange(1, 5))]
+    enc = ""
+    for sc in scopes:
+        enc += src(sc)
+        if rng.random() < 0.25:
+            enc += "I" + "".join(rng.choice(BUILTIN) for _ in range(rng.randrange(1, 4))) + "E"
+    k = rng.random()
+    name = "::".join(scopes)
+    if k < 0.15:
+        enc += "C" + rng.choice("123")
+        name += "::" + scopes[-1]
+    elif k < 0.3:
+        enc += "D" + rng.choice("012")
+        name += "::~" + scopes[-1]
+    elif k < 0.5:
+        op = rng.choice(sorted(OPNAMES))
+        enc += op
+        name += "::operator" + OPNAMES[op]
+    tys = "".join(ty() for _ in range(rng.choice([0, 1, 1, 2, 3, 5, 8])))
+    return ("_ZN" + quals + enc + "E" + tys).encode(), name.encode()
+
+
 def deep_names(depth):
     """nesting depth `depth` in each of the recursive productions"""
     d = depth
@@ -945,7 +1019,9 @@ def tags_of(name, impl):
 def common_meta(ctx):
     ctx.rule = ("a case is one symbol string; streams: (a) every _Z symbol of a generated C++ translation unit compiled by g++ and "
                 "clang++ (expected result = the generator's qualified name, cross-checked with c++filt -p minus template "
-                "arguments), rustc legacy names of a generated crate, the names of utils/demangle.c's unit tests; (b) "
+                "arguments), rustc legacy names of a generated crate, the names of utils/demangle.c's unit tests, and names of the "
+                "formal mangler of theorem C13_roundtrip_typed_partial (qualifiers, templates, class/nested/substitution parameter "
+                "types with base-36 seq-ids of 0-3 digits; expected = the mangler's qualified name); (b) "
                 "grammar-directed random manglings over all productions the parser knows, nesting depth 1..40; (c) truncations at "
                 "every kind of boundary, byte/number mutations, random bytes 1..255, prefix/suffix variants; (d) every distinct "
                 "string the implementation returned, fed back (idempotence).  distinct = distinct strings; non-trivial = of "
@@ -994,6 +1070,9 @@ def gen_cases(ctx):
         add(m, want, "corpus:rustc")
     for m, want in RUST_HANDMADE:
         add(m, want, "rust-handmade")
+    for _ in range(ctx.n(150, 2500)):
+        m, want = formal_name(rng)
+        add(m, want, "formal-mangler")
     base = [c["name"] for c in cases]
     # (b) grammar
     g = Gram(rng, 4)
